@@ -1,6 +1,5 @@
-use crate::{
-    Comparison, LinearModel, LpSolution, MILPValue, SolverError, solve_milp_lp_problem,
-};
+use super::common::solve_variable_free;
+use crate::{LinearModel, LpSolution, MILPValue, SolverError, solve_milp_lp_problem};
 use indexmap::IndexMap;
 
 /// Solves any kind of linear programming problem with the built-in MILP solver.
@@ -48,27 +47,8 @@ use indexmap::IndexMap;
 /// ```
 pub fn auto_solver(lp: &LinearModel) -> Result<LpSolution<MILPValue>, SolverError> {
     if lp.domain().is_empty() {
-        // Without variables every row is a comparison of constants: the model is
-        // feasible only if all of them hold.
-        let violated = lp.constraints().iter().any(|constraint| {
-            let rhs = constraint.rhs();
-            !match constraint.constraint_type() {
-                Comparison::LessOrEqual => 0.0 <= rhs,
-                Comparison::GreaterOrEqual => 0.0 >= rhs,
-                Comparison::Equal => 0.0 == rhs,
-                Comparison::Less => 0.0 < rhs,
-                Comparison::Greater => 0.0 > rhs,
-            }
-        });
-        if violated {
-            return Err(SolverError::Infeasible);
-        }
-        // A variable-free model still carries a constant objective (the offset).
-        return Ok(LpSolution::new(
-            vec![],
-            lp.objective_offset(),
-            IndexMap::new(),
-        ));
+        return solve_variable_free(lp)
+            .map(|value| LpSolution::new(vec![], value, IndexMap::new()));
     }
     solve_milp_lp_problem(lp)
 }
